@@ -59,8 +59,12 @@ func vhRefKeysetId(amounts []uint64, keys []*secp256k1.PublicKey) string {
 	return "00" + hex.EncodeToString(h[:])[:14]
 }
 
-func VHarnessKeysetId() {
-	n := v.Int("nKeys", 1, 3)
+func VHarnessKeysetId()  { vhKeysetId(1, 3) }
+func VHarnessKeysetId4() { vhKeysetId(4, 4) }
+func VHarnessKeysetId5() { vhKeysetId(5, 5) }
+
+func vhKeysetId(lo, hi int) {
+	n := v.Int("nKeys", lo, hi)
 	amounts := make([]uint64, n)
 	keys := make([]*secp256k1.PublicKey, n)
 	m := PublicKeys{}
